@@ -173,6 +173,25 @@ fn path_to_uri(path: &Path) -> Option<Uri> {
 /// Convert a byte offset in `src` to an LSP position on the line
 /// `line_number`. LSP positions count UTF-16 code units within the
 /// line.
+/// Verification hooks: expose the private position conversions to
+/// `verif_hooks` as plain tuples.
+#[cfg(wilfred_garden_verif)]
+pub(crate) fn verif_offset_to_lsp_position(src: &str, offset: usize, line_number: usize) -> (u32, u32) {
+    let p = offset_to_lsp_position(src, offset, line_number);
+    (p.line, p.character)
+}
+
+#[cfg(wilfred_garden_verif)]
+pub(crate) fn verif_line_char_to_offset(src: &str, line: usize, character: usize) -> usize {
+    line_char_to_offset(src, line, character)
+}
+
+#[cfg(wilfred_garden_verif)]
+pub(crate) fn verif_whole_document_range(src: &str) -> (u32, u32, u32, u32) {
+    let r = whole_document_range(src);
+    (r.start.line, r.start.character, r.end.line, r.end.character)
+}
+
 fn offset_to_lsp_position(src: &str, offset: usize, line_number: usize) -> Position {
     let offset = offset.min(src.len());
     let line_start = src[..offset].rfind('\n').map_or(0, |i| i + 1);
